@@ -680,6 +680,9 @@ func genHashCase(rt *rapid.T, ho gen.HeaderOpts) c01HashCase {
 			n := rapid.SampledFrom([]int{23, 24, 255, 256, 65535, 65536, 65537}).Draw(rt, "long-location-len")
 			c.Location = "https://x.example/" + strings.Repeat("l", n-len("https://x.example/"))
 			stats.Class("envelope/long-location")
+		} else if rapid.IntRange(0, 5).Draw(rt, "non-ascii-location") == 0 {
+			c.Location += "?q=\u00fc\u4e2d\U0001f600"
+			stats.Class("envelope/non-ascii-location")
 		}
 	}
 	c.StaleRaw = rapid.SampledFrom([]int{0, 0, 1, 2}).Draw(rt, "stale-raw")
